@@ -54,6 +54,20 @@ def worker(sh):
     for _ in range(sh.pick(4, 400)):
         n = rng.randrange(6, 13)
         emit([rng.choice(kinds + [('a', 'PQ0'), ('p', 'PQ0')]) for _ in range(n)], repeat=rng.choice([1, 2]))
+    # long lists: list lengths at and around every width a per-list counter or bit mask could have (affine and prepared lists are
+    # counted separately by the routine, so each composition is driven on its own and both together)
+    longn = [31, 32, 33, 34, 63, 64, 65] if sh.quick else [31, 32, 33, 34, 63, 64, 65, 66, 127, 128, 129, 255, 256, 257, 300]
+    comps = [('a',), ('p',), ('a', 'p')]
+    jobs = [(n, cp) for n in longn for cp in comps]
+    for n, cp in jobs[sh.index::sh.nshards]:
+        shape = []
+        for kd in cp:
+            shape += [(kd, 'n')] * n
+        # a few identity members, never at the very end (the tail members are the ones a narrow counter would drop)
+        for _ in range(rng.randrange(0, 3)):
+            j = rng.randrange(0, len(shape) - 2)
+            shape[j] = (shape[j][0], rng.choice(['P0', 'Q0']))
+        emit(shape, repeat=1)
     # prepared == plain on single pairs incl. identities (separate entry point)
     single = []
     for _ in range(sh.pick(6, 400)):
@@ -82,7 +96,8 @@ def worker(sh):
             shape, total, desc, repeat = m
             exp = gtlib.e0_pow(total)
             sig = ''.join(k.upper() if not (pz or qz) else k for k, pz, qz in desc)
-            cls = 'n%d/%s/rep%d' % (len(shape), sig if len(shape) <= 5 else 'long', repeat)
+            na_, np_ = sum(1 for k, _, _ in desc if k == 'a'), sum(1 for k, _, _ in desc if k == 'p')
+            cls = 'n%d/%s/rep%d' % (len(shape), sig if len(shape) <= 5 else ('long' if len(shape) < 30 else 'a%d+p%d' % (na_, np_)), repeat)
             for rep in range(repeat):
                 e = C.dec_flat(out[1 + rep])
                 if e != exp:
@@ -110,7 +125,7 @@ def run(ctx):
     ctx.rule = ('events: pairing_sum on a list described as [(affine|prepared, a_i, b_i)] with P_i=[a_i]G1, Q_i=[b_i]G2 from the reference model (identity members with junk '
                 'coordinates), optionally called twice on the same pair arrays; oracle: E0^(sum a_i b_i) from the definitional generator pairing, and the private coefficient '
                 'cursor of every prepared pair (visible through the C mirror struct) must end at 68 (0 if skipped). All list shapes over {affine,prepared}x{normal,P=O,Q=O} up to '
-                'length %s are enumerated; class = (length, shape signature, reuse)' % ('4 (quick)' if ctx.quick else '5'))
+                'length %s are enumerated, plus lists of 31..65 (thorough: ..300) affine pairs, prepared pairs and both; class = (length, shape signature, reuse)' % ('4 (quick)' if ctx.quick else '5'))
     ctx.extra['configs'] = cfgs
     ctx.extra['exhaustive'] = True
     ctx.extra['exhaustive_scope'] = 'list shapes of length <= %d over 6 pair kinds (values sampled)' % (4 if ctx.quick else 5)
@@ -119,6 +134,9 @@ def run(ctx):
     for r in need:
         if not any(k.startswith(r) for k in ctx.classes):
             ctx.required_classes.add(r)
+    for r in ('a33+p0', 'a0+p33', 'a33+p33', 'a65+p0', 'a0+p65', 'a64+p64'):
+        if not any('/%s/' % r in k for k in ctx.classes):
+            ctx.required_classes.add('pairing_sum|long:' + r)
     if not any('/rep2' in k for k in ctx.classes) or not any('/long/' in k for k in ctx.classes):
         ctx.required_classes.add('reuse-or-long-lists')
     return None
